@@ -14,6 +14,6 @@ else
 fi
 for p in "$@"; do
   echo "=== $p on $(basename $SD)"
-  VERIF_REPO=$R VERIF_EVIDENCE_DIR=/tmp/verif_seed_evidence /verif/check $p ${TIER:-quick} 2>&1 | grep -E "^(VIOLATION|KNOWN|UNCONFIRMED|INCONCLUSIVE|  harness=|FAIL)" | head -${LINES_MAX:-12}
+  VERIF_REPO=$R VERIF_EVIDENCE_DIR=/tmp/verif_seed_evidence timeout 1500 /verif/check $p ${TIER:-quick} 2>&1 | grep -E "^(VIOLATION|KNOWN|UNCONFIRMED|INCONCLUSIVE|  harness=|FAIL)" | head -${LINES_MAX:-12}
   echo "rc=${PIPESTATUS[0]}"
 done
